@@ -40,8 +40,8 @@ Inductive expr :=
 with expr_inner :=
 | ETrue
 | EFalse
-| ENumU (n : N)
-| ENumS (z : Z)
+| ENumU (n : N) (lb : N)        (* lb: bits of the literal's own suffix type (32 if none) *)
+| ENumS (z : Z) (lb : N)
 | EId (name : N)
 | EArrLit (es : list expr)
 | EArrRep (e : expr) (n : N)
